@@ -5205,3 +5205,167 @@ func ruleAccessTakesItsLock(r *Run, rule string) {
 		}
 	}
 }
+
+// ruleLockResultTested (R06.24 / R10.17): an attempt to take a line lock (Sem.Lock, Sem.RLock)
+// can be refused; its result is never discarded: every such call is the operand of a condition.
+// An access that goes on after a refused attempt works on a line another core has locked and
+// later releases a lock it does not hold.
+func ruleLockResultTested(r *Run, rule string) {
+	w := r.W
+	for _, v := range variants(w) {
+		if v.pkg == nil || !v.pipelined() || !usesLineLocks(w, v) {
+			continue
+		}
+		info := v.info
+		for _, f := range v.pkg.Syntax {
+			for _, d := range f.Decls {
+				fd, ok := d.(*ast.FuncDecl)
+				if !ok || fd.Body == nil {
+					continue
+				}
+				n := 0
+				// calls used as whole statements or assigned to blank
+				ast.Inspect(fd.Body, func(m ast.Node) bool {
+					var call *ast.CallExpr
+					discarded := false
+					switch x := m.(type) {
+					case *ast.ExprStmt:
+						if c, ok := x.X.(*ast.CallExpr); ok {
+							call, discarded = c, true
+						}
+					case *ast.AssignStmt:
+						if len(x.Rhs) == 1 && len(x.Lhs) == 1 {
+							if c, ok := x.Rhs[0].(*ast.CallExpr); ok {
+								if id, ok := x.Lhs[0].(*ast.Ident); ok && id.Name == "_" {
+									call, discarded = c, true
+								}
+							}
+						}
+					}
+					if call == nil || !discarded {
+						return true
+					}
+					fn, ok := typeutil.Callee(info, call).(*types.Func)
+					if !ok || (fn.Name() != "Lock" && fn.Name() != "RLock") {
+						return true
+					}
+					sig := fn.Type().(*types.Signature)
+					if sig.Recv() == nil || !isCompType(sig.Recv().Type(), "Sem") {
+						return true
+					}
+					n++
+					r.bad(rule, fmt.Sprintf("%s.%s:lock-result-discarded#%d", v.rel, declName(fd), n), call.Pos(), "the result of %s on a line lock is discarded: a refused attempt goes unnoticed", fn.Name())
+					return true
+				})
+			}
+		}
+		// positive instances: the tested acquisitions (so that the rule cannot pass vacuously)
+		for _, f := range v.pkg.Syntax {
+			for _, d := range f.Decls {
+				fd, ok := d.(*ast.FuncDecl)
+				if !ok || fd.Body == nil {
+					continue
+				}
+				n := 0
+				ast.Inspect(fd.Body, func(m ast.Node) bool {
+					is, ok := m.(*ast.IfStmt)
+					if !ok {
+						return true
+					}
+					ast.Inspect(is.Cond, func(k ast.Node) bool {
+						if c, ok := k.(*ast.CallExpr); ok {
+							if fn, ok := typeutil.Callee(info, c).(*types.Func); ok && (fn.Name() == "Lock" || fn.Name() == "RLock") {
+								if sig := fn.Type().(*types.Signature); sig.Recv() != nil && isCompType(sig.Recv().Type(), "Sem") {
+									n++
+									r.ok(rule, fmt.Sprintf("%s.%s:lock-result-tested#%d", v.rel, declName(fd), n), c.Pos(), "the result of %s decides whether the access proceeds", fn.Name())
+								}
+							}
+						}
+						return true
+					})
+					return true
+				})
+			}
+		}
+	}
+}
+
+// rulePendingIntervalCoversLine (R05.24 / R10.18): the interval registered for a line fetch in
+// progress, [start, start + k), covers the whole line being fetched: k is not smaller than the
+// line size of the cache the fetch fills. A shorter interval lets an access to the last bytes
+// of the line start a second fetch of it.
+func rulePendingIntervalCoversLine(r *Run, rule string) {
+	w := r.W
+	for _, v := range variants(w) {
+		if v.pkg == nil || !v.pipelined() {
+			continue
+		}
+		info := v.info
+		_, byVar := resolvedCaches(w, v)
+		for _, f := range v.pkg.Syntax {
+			for _, d := range f.Decls {
+				fd, ok := d.(*ast.FuncDecl)
+				if !ok || fd.Body == nil {
+					continue
+				}
+				// the cache this function probes
+				var line int64
+				ast.Inspect(fd.Body, func(m ast.Node) bool {
+					if c, ok := m.(*ast.CallExpr); ok {
+						if sel, ok := c.Fun.(*ast.SelectorExpr); ok && isCompType(info.TypeOf(sel.X), "LRUCache") {
+							if ci := cacheOfExpr(v, byVar, sel.X); ci != nil && ci.lineSize > 0 {
+								line = ci.lineSize
+							}
+						}
+					}
+					return true
+				})
+				if line == 0 {
+					continue
+				}
+				n := 0
+				ast.Inspect(fd.Body, func(m ast.Node) bool {
+					cl, ok := m.(*ast.CompositeLit)
+					if !ok || len(cl.Elts) != 2 {
+						return true
+					}
+					at, ok := info.TypeOf(cl).Underlying().(*types.Array)
+					if !ok || at.Len() != 2 || typeName(at.Elem()) != "int32" {
+						return true
+					}
+					// end = start + constants
+					start := types.ExprString(ast.Unparen(cl.Elts[0]))
+					var sum int64
+					okForm := true
+					var walk func(e ast.Expr, sign int64)
+					walk = func(e ast.Expr, sign int64) {
+						e = ast.Unparen(e)
+						if c, ok := constInt64(info.Types[e]); ok {
+							sum += sign * c
+							return
+						}
+						if b, ok := e.(*ast.BinaryExpr); ok && (b.Op == token.ADD || b.Op == token.SUB) {
+							walk(b.X, sign)
+							if b.Op == token.ADD {
+								walk(b.Y, sign)
+							} else {
+								walk(b.Y, -sign)
+							}
+							return
+						}
+						if types.ExprString(e) != start {
+							okForm = false
+						}
+					}
+					walk(cl.Elts[1], 1)
+					if !okForm {
+						return true
+					}
+					n++
+					r.check(sum >= line, rule, fmt.Sprintf("%s.%s:pending-interval-length#%d", v.rel, declName(fd), n), cl.Pos(), "the interval registered for a line fetch spans at least the line (%d bytes registered, line of %d)", sum, line)
+					return true
+				})
+			}
+		}
+	}
+}
